@@ -11,6 +11,7 @@ import OG.C07.LemmasTime
 import OG.C07.LemmasBool
 import OG.C07.LemmasFloat
 import OG.C07.LemmasWal
+import OG.C07.LemmasString
 
 namespace OG.C07
 open OG.Gen.C07
@@ -481,5 +482,60 @@ theorem wal_frame_read (snappy : Bytes → Bytes) (unsnappy : Bytes → Option B
   by_cases h1 : ty = 1
   · simp [h1, hrows h1]
   · simp [h1]
+
+/-! ## strings -/
+
+/-- **string block**: for every non-empty list of strings (empty strings, 64 KiB strings, any
+bytes), with any of the three compressors (opaque, `decompress ∘ compress = id`; lz4 never
+answering with an empty block) and whichever frame is chosen (compressed, or the uncompressed
+frame when compression does not reach 85 %), `DecodeStringBlock` returns the concatenated
+bytes and the offsets of the strings. -/
+theorem string_block_roundtrip (ty : Nat) (hty : ty = stringCompressedSnappy ∨
+      ty = stringCompressedZstd ∨ ty = stringCompressedLz4)
+    (compress : Bytes → Bytes) (decompress : Nat → Bytes → Option Bytes)
+    (hd : ∀ b, decompress ty (compress b) = some b)
+    (hlz : ty = stringCompressedLz4 → ∀ b, (compress b).length ≠ 0)
+    (strs : List Bytes) (hne : strs ≠ []) (hsz : (packStrings strs).length < 2 ^ 32) :
+    decodeStrings decompress (encodeStrings ty compress strs)
+      = some (strs.flatten, strOffsets strs) := by
+  have p4 : (256 : Nat) ^ 4 = 2 ^ 32 := by decide
+  have hty16 : ty < 16 := by
+    rcases hty with h | h | h <;> rw [h] <;> decide
+  have hty0 : ty ≠ stringUncompressed := by
+    rcases hty with h | h | h <;> rw [h] <;> decide
+  have hty3 : ty ≤ stringCompressedLz4 := by
+    rcases hty with h | h | h <;> rw [h] <;> decide
+  unfold encodeStrings encodeStringBytes
+  simp only [hne, if_false]
+  have hlzc : ¬ (ty = stringCompressedLz4 ∧ (compress (packStrings strs)).length = 0) := by
+    rintro ⟨h1, h2⟩; exact hlz h1 _ h2
+  simp only [hlzc, if_false]
+  by_cases hr : ratioLT ((compress (packStrings strs)).length + 9) (packStrings strs).length
+      minCompRetaNum minCompRetaDen = true
+  · rw [if_pos hr]
+    have hr' : ((compress (packStrings strs)).length + 9) * 20 < 17 * (packStrings strs).length := by
+      unfold ratioLT at hr; exact of_decide_eq_true hr
+    have hdec := decodeStringBytes_comp decompress (modeByte ty)
+      (be 4 (packStrings strs).length ++ (be 4 (compress (packStrings strs)).length
+        ++ compress (packStrings strs)))
+      (be 4 (compress (packStrings strs)).length ++ compress (packStrings strs))
+      (compress (packStrings strs)) (packStrings strs) ty (packStrings strs).length
+      (compress (packStrings strs)).length (by simp; omega) (modeByte_ty ty hty16) hty0 hty3
+      (readBE_be_lt _ (by rw [p4]; exact hsz)) (readBE_be_lt _ (by rw [p4]; omega))
+      (Eq.refl _) (hd _) (Eq.refl _)
+    exact decodeStrings_of decompress _ _ _ (by simp) hdec (packStrings_unpack strs hne hsz)
+  · rw [if_neg hr]
+    unfold stringRawFrame
+    have hdec := decodeStringBytes_raw decompress (modeByte stringUncompressed)
+      (be 4 (packStrings strs).length ++ (be 4 (packStrings strs).length ++ packStrings strs))
+      (be 4 (packStrings strs).length ++ packStrings strs) (packStrings strs)
+      (packStrings strs).length
+      (by simp; omega) (modeByte_ty _ (by decide)) (readBE_be_lt _ (by rw [p4]; exact hsz))
+      (by simp) (readBE_be_lt _ (by rw [p4]; exact hsz)) (Eq.refl _)
+    exact decodeStrings_of decompress _ _ _ (by simp) hdec (packStrings_unpack strs hne hsz)
+
+example : strOffsets [[1, 2, 3], [], [4, 5]] = [0, 3, 3] := by decide
+example : packStrings [[65], []] = [0xff, 0xff, 0xff, 0xfe, 0, 0, 0, 1, 65, 0, 0, 0, 2,
+    0, 0, 0, 1, 0, 0, 0, 0] := by decide
 
 end OG.C07
